@@ -91,7 +91,7 @@ BAD = {"scanner-at-start": "@oops\n", "unbalanced-flow": "[a, b\n", "bad-indent"
        "bare-huge-quoted": "\"" + "x" * 240000 + "\"\n", "bare-small": "k: v\n"}
 
 
-def build_stream(docs, bad, tail_kind, tail_blocks, first_implicit):
+def build_stream(docs, bad, tail_kind, tail_blocks, first_implicit, nl="\n"):
     """-> (text, [end offset of document i], index of the malformed document or None)"""
     parts = []
     ends = []
@@ -126,7 +126,16 @@ def build_stream(docs, bad, tail_kind, tail_blocks, first_implicit):
     else:
         one = "# tail comment line, padding padding padding padding padding ........\n"
     tail = one * (tail_blocks * unit // len(one))
+    if nl != "\n":
+        # the same stream written with another line break (every break of it): offsets move only for the two-character break
+        if len(nl) == 2:
+            ends = [e + text[:e].count("\n") for e in ends]
+        text = text.replace("\n", nl)
+        tail = tail.replace("\n", nl)
     return text, ends, bad_index, tail, bare_count[0]
+
+
+NLS = ["\n", "\n", "\n", "\r\n", "\r", "\x85", "\u2028", "\u2029"]
 
 
 def level_iter(yaml, level, L, stream):
@@ -190,9 +199,12 @@ def deliveries(yaml, level, L, data, schedule, ndocs):
 def eval_case(case):
     import yaml
     docs, bad, tail_kind, tail_blocks, first_implicit, schedule, as_bytes = case
-    text, ends, bad_index, tail, nbare = build_stream(docs, bad, tail_kind, tail_blocks, first_implicit)
+    # the line break of the whole stream is a pure function of the case
+    nl = NLS[(len(docs) + tail_blocks + sum(schedule) + sum(sp[1] for sp in docs)) % len(NLS)]
+    text, ends, bad_index, tail, nbare = build_stream(docs, bad, tail_kind, tail_blocks, first_implicit, nl)
     ndocs = len(docs)
     cl = set()
+    cl.add("break:%s" % {"\n": "LF", "\r\n": "CRLF", "\r": "CR", "\x85": "NEL", "\u2028": "LS", "\u2029": "PS"}[nl])
     total_blocks = (len(text) + len(tail)) / 4096.0
     if total_blocks >= 3 and ndocs >= 2:
         cl.add("stream>=3-blocks-and-docs>=2")
